@@ -187,6 +187,22 @@ func Now() time.Time {
 	return t
 }
 
+// GtimeView is what TarsGo's package gtime publishes: the clock as of the last whole second.
+type GtimeView struct {
+	CurrUnixTime int64
+	CurrDateTime string
+	CurrDateHour string
+	CurrDateDay  string
+}
+
+// Gtime replaces reads of gtime.Curr* in instrumented code: the values package gtime's updater
+// goroutine would have stored at the last whole second of the clock the caller lives on (the
+// bubble's clock inside a run).
+func Gtime() GtimeView {
+	now := time.Now().Truncate(time.Second)
+	return GtimeView{now.Unix(), now.Format("2006-01-02 15:04:05"), now.Format("2006010215"), now.Format("20060102")}
+}
+
 // InSim reports whether the caller runs under the scheduler.
 func InSim() bool { return active.Load() && !stopped.Load() }
 
